@@ -48,7 +48,13 @@ TECHNIQUE = (
     "lock probe), the outer run as any top-level run, and each is judged on its own artefacts; every run with a database starts on a database path in one of three "
     "states (absent / existing empty file as from mktemp or touch / gallia database an earlier completed run of gallia's own DBHandler has written to); hooks that do not "
     "fail but take long (sleep, then a marker file, exit 0): with the clock the stdlib subprocess module measures timeouts with running 40000 times faster in the child "
-    "(a 0.3 s hook has taken 12000 s by any limit given to subprocess.run; without a limit that clock is never read) and, in one run (thorough: two), really sleeping 20-35 s"
+    "(a 0.3 s hook has taken 12000 s by any limit given to subprocess.run; without a limit that clock is never read) and, in one run (thorough: two), really sleeping 20-35 s; "
+    "two usage dimensions folded into the runs of all families: every second run with a hook is started with GALLIA_EXIT_CODE / GALLIA_META of another gallia run in its process environment "
+    "(gallia launched from the post-hook of another run) and the environment its own hooks dump is judged as in any other run; in every second run with an artifacts dir or a database the "
+    "command reads an option of its own config object and assigns another value to it at a lifecycle point at or before its ending (what `scan uds identifiers` does with `end`), and the config in "
+    "META.json / run_meta is compared with the config the run was started with. The Ctrl-C-while-the-run-entry-is-completed runs hold the command at the very end of run(), take the database's "
+    "write lock (stdlib sqlite3) once the scan_result table has stopped growing, send the signal after the child has noted the command's call of DBHandler.complete_run_meta() and release the lock only "
+    "when the child has noted that this call was ended by CancelledError"
 )
 LEVEL_TEXT = (
     "Fault enumeration: command kind x exit kind x lifecycle point is enumerated completely in both tiers (3 x (1 + 9 x 5) = "
@@ -67,8 +73,9 @@ LEVEL_TEXT = (
     "that end in main or teardown with 600-1200 scan results queued and get a real SIGINT while entry_point() closes the database, plus 9 nested runs (9 endings of all "
     "classes incl. a real SIGINT, command kind rotating, the 8 resource settings of the outer Rerunner run rotating; thorough: 138 = kind x exit kind x lifecycle point) in which "
     "gallia's Rerunner runs the harness command inside its own run, plus 9 runs (kind x slow hook in {pre, post, both}; thorough: 72 = x 8 endings) with long-running hooks under the "
-    "scaled subprocess clock and 1 run (thorough: 2) whose hook really sleeps 20 s (35 s). In every family each run with a database gets one of three states of the database path "
-    "before the run (absent, empty file, used by an earlier run), the three states in shuffled turns. Thorough: every combination "
+    "scaled subprocess clock and 1 run (thorough: 2) whose hook really sleeps 20 s (35 s). The latesig family has 6 more runs (thorough: 12; every kind twice, six endings) whose Ctrl-C arrives while complete_run_meta() waits for a write lock another writer holds (4 of 6 with no other write of the handler pending, checked by counting scan_result under the lock and after the run; 2 with 5 scan results queued after the lock was taken). In every family each run with a database gets one of three states of the database path "
+    "before the run (absent, empty file, used by an earlier run), the three states in shuffled turns; every second run with a hook inherits hook variables of another run, every second run with an "
+    "artifacts dir or a database changes one of three options (own int, own str, base-class float) of its config at one of the lifecycle points it reaches (shuffled in blocks of two). Thorough: every combination "
     "x all 8 resource settings x 5 hook pairs (a rotating diagonal of the non-failing 3x3 hook square, one failing pre-hook, "
     "one failing post-hook; 5520 runs; VERIF_C15_FULL=1 runs all 25 hook pairs). One fault per run; held means held for the "
     "runs executed. A child that exceeds the watchdog is re-run; it is a finding only if it hangs again and the thread stacks "
@@ -104,7 +111,10 @@ RULE = (
     "database on; a ninth family is (gallia's Rerunner as the outer run, artifacts dir on/off x database in {none, the inner run's file, a file of its own} x lock file on/off, 8 settings) x "
     "(inner run: kind x exit kind x lifecycle point, own resources, non-failing hooks), the Rerunner awaiting the inner entry_point() inside its main(); a tenth family is (kind) x "
     "(pre-hook, post-hook in {slow, none}, at least one slow) x (8 endings, no real SIGINT) x (flavour in {scaled subprocess clock, real time}); a dimension of every run with a database is "
-    "the state of the database path before the run in {absent, empty file, database used by an earlier completed run}; "
+    "the state of the database path before the run in {absent, empty file, database used by an earlier completed run}; a dimension of every run with a hook is the process environment in "
+    "{clean, GALLIA_EXIT_CODE and GALLIA_META of another run inherited}; a dimension of every run with an artifacts dir or a database is {config untouched, the command assigns a new value to "
+    "(c15_end | c15_note | power_cycle_sleep) at a lifecycle point <= its fault point}; the run-entry-completion window of the eighth family is (kind) x (6 endings) x "
+    "(signal 0.15/0.3 s after complete_run_meta() was called under a foreign write lock) x (handler's queue empty | 5 results queued under the lock); "
     "non-trivial = anything but a fault-free run without hooks and "
     "resources; distinct = distinct case tuples"
 )
@@ -156,6 +166,16 @@ ASSUMPTIONS = [
     "gives subprocess no timeout; a limit enforced by other means (asyncio, signals, threads) is only met by the hook that really sleeps 20 s (35 s)",
     "after an exception other than a Ctrl-C's KeyboardInterrupt has left entry_point() in a run on a database path that existed before (or in a nested run), the child stops a database "
     "connection that exception left open, so that the child can end; the exception is the finding, the hanging process would be its consequence",
+    "gallia may be started with GALLIA_* hook variables of another gallia run in its environment (it was launched from that run's post-hook); what a run hands to its own hooks is about "
+    "this run: GALLIA_EXIT_CODE is this run's exit code, GALLIA_META the content of this run's META.json, GALLIA_HOOK the variant that runs, GALLIA_ARTIFACTS_DIR and GALLIA_INVOCATION "
+    "those of this run. All five variables of the other run are inherited in the generated runs (the last three were handed through to the run's own hooks until /repo 6159b3e; "
+    "VERIF_C15_STALE_HOOK_ENV=two restricts the inheritance to the first two). What the pre-hook sees in variables documented for the post-hook only is not judged. The hook script names the files it leaves after the variant it was configured as "
+    "(an argument), not after GALLIA_HOOK",
+    "a command may assign to the options of its own config object while it runs (gallia's `scan uds identifiers` does); 'a config from which the run can be re-created' is the config the run was "
+    "started with - the one stored in run_meta.config when the run began -, not the values the options have when the run ends",
+    "Ctrl-C while the run entry is completed: counted only if the harness held the write lock from before run() ended until the child had noted that the command's complete_run_meta() call was left "
+    "by CancelledError; held longer than 6 s in all: not judged. Whether other writes of the handler were pending at that time is observed (scan_result count under the lock vs. after the run), "
+    "both cases are judged alike; at least 3 (6) runs without pending writes are required",
     "the database may be shared with other writers: a write lock held by somebody else for up to 6 s (the handler's busy timeout is 10 s) "
     "must not cost the run its end time / exit code; a contended run is judged as such only if the measured lock time was 1.5..6 s, "
     "and not judged at all if the harness held the lock longer",
@@ -277,16 +297,53 @@ DBSTATES = ["absent", "empty-file", "initialised"]
 SLOW_SCALED_SLEEP = 0.3
 SLOW_CLOCK_SCALE = 40000.0
 SLOW_REAL_SLEEP = {"quick": [20.0], "thorough": [20.0, 35.0]}
+# ---- "Ctrl-C while the run_meta row is being completed" window of the latesig family (spec["latesig"]["window"] == RUNENTRY_WINDOW, with
+# spec["contend"]): the harness takes the database's write lock while the command is held at the end of its run() and keeps it until the child has noted that the
+# command's call of DBHandler.complete_run_meta() (made after run() was over) was left by a CancelledError - so the lock is held while the UPDATE
+# is attempted and while the Ctrl-C is delivered - or RUNENTRY_WAIT_INTERRUPT s have passed; only then is the lock released.
+RUNENTRY_WINDOW = "run-entry-completion"
+RUNENTRY_ENDS = [("exit3", "main"), ("return", "none"), ("runtime", "teardown_post"), ("connerr", "main"), ("exit1", "teardown_pre"), ("udserr", "main")]
+RUNENTRY_WAIT_INTERRUPT = 4.0
+# where the command is held while the harness takes the lock: at the very end of its run(), after teardown (a lock taken earlier would stall what
+# UDSScanner.teardown itself writes to the database). Before it takes the lock the harness waits until the scan_result table has stopped growing
+# (RUNENTRY_QUIET s without a new row, at most RUNENTRY_QUIET_MAX s), and it counts that table when it has the lock and after the run: equal
+# counts = the handler had no other write pending while the run entry was completed ("no-other-write-pending"); in two runs of six the command
+# queues 5 scan results after the lock has been taken ("other-writes-pending").
+RUNENTRY_HOLD = "end-of-run"
+RUNENTRY_QUIET = 0.15
+RUNENTRY_QUIET_MAX = 3.0
+# ---- "hook variables of another run in the process environment" dimension (spec["staleenv"], runs with a hook): gallia started from the
+# post-hook of another gallia run (chained scans, a re-run from a hook) inherits that run's GALLIA_* hook variables. What this run tells its own
+# hooks has to be about this run. All five hook variables of the other run are inherited (what a post-hook really passes on); the unchanged tree
+# handed GALLIA_HOOK / GALLIA_ARTIFACTS_DIR / GALLIA_INVOCATION through to its own hooks until /repo 6159b3e. VERIF_C15_STALE_HOOK_ENV=two restricts
+# the inheritance to the exit code and META of the other run.
+STALE_ENV: dict[str, str] = {
+    "GALLIA_EXIT_CODE": "41",  # no run of the harness ends with 41
+    "GALLIA_META": json.dumps({"command": "gallia.commands.scan.uds.services.ServicesScanner", "start_time": "2001-02-03T04:05:06+00:00",
+                               "end_time": "2001-02-03T04:05:07+00:00", "exit_code": 41, "config": {"c15_note": "config of another run"}}),
+    "GALLIA_HOOK": "post",
+    "GALLIA_ARTIFACTS_DIR": "/nonexistent/c15-other-run/scan_services/run-20010203-040506.000000",
+    "GALLIA_INVOCATION": "gallia scan uds services --target c15-other-run",
+}
+STALE_VARS_DEFAULT = ["GALLIA_EXIT_CODE", "GALLIA_META"]
+STALE_COND = "inherited-from-process-environment"
+# ---- "the command changes its own config while it runs" dimension (spec["cfgmut"], runs with an artifacts dir or a database): at one lifecycle
+# point at or before the ending the command reads an option from its config object and assigns another value to it (gallia's
+# `scan uds identifiers` narrows self.config.end that way). The config a run is re-created from is the one it was started with.
+CFGMUT_FIELDS: dict[str, Any] = {"c15_end": 0x7F, "c15_note": "changed by the command while it ran", "power_cycle_sleep": 1.25}
+CFGMUT_COND = "config-modified-by-command-during-run"
 TEXT_SURROGATE = [c for c, t in TEXT_CLASSES.items() if any(0xD800 <= ord(ch) <= 0xDFFF for ch in t)]
 LOGGER_NAME = "gallia.verif.c15"
 # set by the fault injector (main thread), read by the virtual ECU (its own thread): "answer" | "silent" | "reset"
 ECU_CTL: dict[str, str] = {"mode": "answer"}
 
 HOOK_SH = r"""#!/bin/sh
-# C15 hook: dump the environment, probe the lock file, then behave as told by $1
-env -0 > "$C15_OUT/hook-$GALLIA_HOOK.env"
+# C15 hook: dump the environment, probe the lock file, then behave as told by $1; $2 says as which hook it was configured (the files
+# it leaves are named after that, not after what it is told in GALLIA_HOOK)
+V="${2:-$GALLIA_HOOK}"
+env -0 > "$C15_OUT/hook-$V.env"
 if [ -n "$C15_LOCK" ]; then
-  if flock -n "$C15_LOCK" true 2>/dev/null; then echo free; else echo held; fi > "$C15_OUT/hook-$GALLIA_HOOK.lock"
+  if flock -n "$C15_LOCK" true 2>/dev/null; then echo free; else echo held; fi > "$C15_OUT/hook-$V.lock"
 fi
 case "$1" in
   ok) exit 0 ;;
@@ -295,7 +352,7 @@ case "$1" in
   noisy) yes "c15 noisy hook stdout line 0123456789 0123456789" | head -n 2500
          yes "c15 noisy hook stderr line 0123456789 0123456789" | head -n 2500 >&2
          exit 0 ;;
-  slow) sleep "${C15_SLOW:-0.3}"; echo done > "$C15_OUT/hook-$GALLIA_HOOK.done"; exit 0 ;;
+  slow) sleep "${C15_SLOW:-0.3}"; echo done > "$C15_OUT/hook-$V.done"; exit 0 ;;
 esac
 exit 0
 """
@@ -597,10 +654,14 @@ def gen_latesig(tier: str, seed: int, first_id: int) -> list[dict[str, Any]]:
                      "id": first_id + i})
     if os.environ.get("VERIF_C15_LATESIG_RUN_ENTRY", "1") == "1":
         # the Ctrl-C arrives earlier, while the run_meta row is being completed (another writer holds the database's write lock
-        # from right before the ending, so that this takes a while). This window was a genuine defect (repaired in /repo f4c4351).
-        for k in KINDS:
-            rows.append({"kind": k, "exit": "exit3", "point": "main", "pre": "none", "post": "ok", "art": True, "db": True, "lock": True, "contend": CONTEND_HOLDS[0],
-                         "latesig": {"at": "main", "rows": 5, "delay": 0.3, "window": "run-entry-completion"}, "id": first_id + len(rows)})
+        # from right before the ending until the child has noted that the Ctrl-C ended the command's complete_run_meta() call). This window was
+        # a genuine defect (repaired in /repo f4c4351). Every command kind twice (thorough: four times), six endings rotating with the seed.
+        for i in range(6 if tier == "quick" else 12):
+            e, p = RUNENTRY_ENDS[(i + seed) % len(RUNENTRY_ENDS)]
+            rows.append({"kind": KINDS[i % 3], "exit": e, "point": p, "pre": "none", "post": ["ok", "none", "noisy"][(i + seed) % 3], "art": i % 3 != 2, "db": True, "lock": i % 2 == 0,
+                         "contend": CONTEND_HOLDS[0],
+                         "latesig": {"at": RUNENTRY_HOLD, "rows": 5 if i in (1, 5) else 0, "delay": [0.3, 0.15][i % 2], "window": RUNENTRY_WINDOW},
+                         "id": first_id + len(rows)})
     return rows
 
 
@@ -669,6 +730,36 @@ def assign_dbstate(tier: str, seed: int, cases: list[dict[str, Any]]) -> None:
             c["dbstate"] = block.pop()
 
 
+def assign_usage(tier: str, seed: int, cases: list[dict[str, Any]]) -> None:
+    """Two usage dimensions folded into the runs of every family (the shipped command through the CLI excepted), each on every second run it applies
+    to (shuffled in blocks of two, by id): runs with a hook start with hook variables of another gallia run in their process environment
+    (spec["staleenv"]); runs with an artifacts dir or a database change one option of their own config object at a lifecycle point at or before
+    their ending (spec["cfgmut"]; field and point rotate)."""
+    import random
+
+    rng = random.Random(f"C15/usage/{tier}/{seed}")
+    stale_vars = STALE_VARS_DEFAULT if os.environ.get("VERIF_C15_STALE_HOOK_ENV", "") == "two" else list(STALE_ENV)
+    turn: dict[str, list[bool]] = {"stale": [], "mut": []}
+
+    def mine(what: str) -> bool:
+        if not turn[what]:
+            turn[what] = [True, False]
+            rng.shuffle(turn[what])
+        return turn[what].pop()
+
+    n = 0
+    for c in sorted(cases, key=lambda c: c["id"]):
+        if c.get("cli"):
+            continue
+        if (c["pre"] != "none" or c["post"] != "none") and mine("stale"):
+            c["staleenv"] = {"vars": stale_vars}
+        if (c["art"] or c["db"]) and mine("mut"):
+            upto = POINTS[:POINTS.index(c["point"]) + 1] if c["point"] in POINTS else POINTS
+            fields = [f for f in CFGMUT_FIELDS if f != "power_cycle_sleep" or c["kind"] != "script"]
+            c["cfgmut"] = {"at": upto[(n + seed) % len(upto)], "field": fields[(n // 2 + seed) % len(fields)]}
+            n += 1
+
+
 def shards(tier: str, seed: int) -> list[dict[str, Any]]:
     n = 16
     cases = gen_cases(tier, seed)
@@ -715,6 +806,7 @@ def shards(tier: str, seed: int) -> list[dict[str, Any]]:
         else:
             out[(j * 3 + seed + 11) % n]["cases"].append(c)
     assign_dbstate(tier, seed, [c for s in out for c in s["cases"]])
+    assign_usage(tier, seed, [c for s in out for c in s["cases"]])
     return out
 
 
@@ -764,7 +856,11 @@ def required_reach(tier: str) -> dict[str, int]:
     # a real SIGINT went out after run() was over and the run_meta row had its end time, while rows the command had queued were still
     # unwritten (entry_point() was closing the database), and the artefacts of such runs were compared
     k = 3 if tier == "quick" else 30
-    need.update({"latesig.run-entry-completion-window": 2, "latesig.exercised": k, "latesig.run_meta_checked": k, "latesig.meta_checked": 2 if tier == "quick" else 20,
+    # (run-entry-completion window: counted only if the foreign write lock was held from before the ending until the child had noted that the
+    # command's complete_run_meta() call, made after run() was over, was ended by the Ctrl-C's CancelledError; and the run_meta row of such runs was read)
+    need.update({"latesig.run-entry-completion-window": 4 if tier == "quick" else 8, "latesig.run-entry-completion-window.run_meta_checked": 4 if tier == "quick" else 8,
+                 "latesig.run-entry-completion-window.no-other-write-pending": 3 if tier == "quick" else 6,
+                 "latesig.exercised": k, "latesig.run_meta_checked": k, "latesig.meta_checked": 2 if tier == "quick" else 20,
                  f"log.checked_at_entry_point_end.{LATESIG_COND}": 2 if tier == "quick" else 20})
     # a run inside a run (gallia's Rerunner awaiting the re-created command's entry_point()): the inner command really ran inside the outer
     # run, both had their log files open at the same time, and the outer run's own META.json / log / run_meta row / lock file were judged
@@ -778,6 +874,13 @@ def required_reach(tier: str) -> dict[str, int]:
     # hooks that take long were run to their end (marker written after the sleep), under the scaled subprocess clock and in real time
     need.update({"slowhook.completed.pre": 4 if q else 40, "slowhook.completed.post": 4 if q else 40, "slowhook.clock_scaled": 8 if q else 80,
                  "slowhook.realtime.completed": 1 if q else 2})
+    # the process was started with GALLIA_EXIT_CODE / GALLIA_META of another run in its environment and the environment its own post-hook saw was compared
+    need.update({"staleenv.post_hook_env_checked": 15 if q else 500, "staleenv.post_hook_env_checked.with_meta_json": 6 if q else 250})
+    # the command changed an option of its own config object during the run (noted after the assignment) and the config in META.json / in the
+    # run_meta row of such a run was re-created and compared with the config the run was started with; per command kind
+    need.update({"cfgmut.exercised": 40 if q else 1500, "cfgmut.meta_config_checked": 20 if q else 800, "cfgmut.run_meta_config_checked": 20 if q else 800})
+    need.update({f"cfgmut.kind.{kd}": 8 if q else 300 for kd in KINDS})
+    need.update({f"cfgmut.field.{f}": 5 if q else 200 for f in CFGMUT_FIELDS})
     return need
 
 
@@ -795,9 +898,9 @@ def config_kwargs(spec: dict[str, Any], rundir: Path) -> dict[str, Any]:
     p = run_paths(rundir)
     kw: dict[str, Any] = {"volatile_info": False}
     if spec["pre"] != "none":
-        kw["pre_hook"] = f"sh {p['hook']} {spec['pre']}"
+        kw["pre_hook"] = f"sh {p['hook']} {spec['pre']} pre"
     if spec["post"] != "none":
-        kw["post_hook"] = f"sh {p['hook']} {spec['post']}"
+        kw["post_hook"] = f"sh {p['hook']} {spec['post']} post"
     if spec["art"]:
         kw["artifacts_base"] = p["art"]
     if spec["db"]:
@@ -839,12 +942,15 @@ def define_commands() -> None:
 
     class C15ScriptConfig(AsyncScriptConfig):  # type: ignore[no-redef]
         c15_note: str = "c15"
+        c15_end: int = 0xFF
 
     class C15ScannerConfig(ScannerConfig):  # type: ignore[no-redef]
         c15_note: str = "c15"
+        c15_end: int = 0xFF
 
     class C15UDSScannerConfig(UDSScannerConfig):  # type: ignore[no-redef]
         c15_note: str = "c15"
+        c15_end: int = 0xFF
 
     class _Mixin:
         injector: Any = None
@@ -874,6 +980,8 @@ def define_commands() -> None:
                 return await super().run()  # type: ignore[misc,no-any-return]
             finally:
                 # setup/main/teardown are over, however they ended: what follows is entry_point()'s own bookkeeping
+                if self.injector.spec["latesig"].get("window") == RUNENTRY_WINDOW:
+                    await self.injector.end_of_run_hold(self)
                 self.injector.run_ended()
 
         async def entry_point(self) -> int:
@@ -1019,6 +1127,52 @@ class Injector:
             await orig()
 
         h.disconnect = disconnect
+        if (self.spec.get("latesig") or {}).get("window") != RUNENTRY_WINDOW:
+            return
+        # same kind of observation for the call that completes the run entry: that it was made once run() was over, and that it was left
+        # by the CancelledError of a Ctrl-C (noted, then passed on unchanged)
+        import asyncio
+
+        orig_complete = h.complete_run_meta
+
+        async def complete_run_meta(*a: Any, **kw: Any) -> Any:
+            if self.run_over:
+                self.event("run_meta_completion_entered")
+                (self.out / "run-meta-completion-entered").write_text(str(os.getpid()))
+            try:
+                return await orig_complete(*a, **kw)
+            except asyncio.CancelledError:
+                if self.run_over:
+                    self.event("run_meta_completion_interrupted")
+                    (self.out / "run-meta-completion-interrupted").write_text(str(os.getpid()))
+                raise
+
+        h.complete_run_meta = complete_run_meta
+
+    async def end_of_run_hold(self, cmd: Any) -> None:
+        """last thing in the command's run(): tell the parent that the run is about to end, go on when it has taken the database's write lock"""
+        import asyncio
+
+        later = int(self.spec["latesig"].get("rows") or 0) and cmd.db_handler is not None
+        if later and cmd.db_handler.scan_run is None:
+            await cmd.db_handler.insert_scan_run("c15://burst")  # (written at once, not queued: before anybody else has the lock)
+        (self.out / "ready-db").write_text(str(os.getpid()))
+        limit = time.monotonic() + SIGINT_READY_TIMEOUT + 8
+        while not (self.out / "db-locked").exists() and time.monotonic() < limit:
+            await asyncio.sleep(0.005)
+        self.event("contend_go" if (self.out / "db-locked").exists() else "contend_go_missed")
+        if later:
+            await self.queue_rows(cmd)  # a scanner whose last requests are still being recorded
+
+    def modify_config(self, cmd: Any, log: Any) -> None:
+        """what `scan uds identifiers` does with its `end` option: use the option as given, then assign another value to the command's own config object"""
+        field = self.spec["cfgmut"]["field"]
+        if not hasattr(cmd.config, field):
+            field = "c15_end"
+        old = getattr(cmd.config, field)
+        setattr(cmd.config, field, CFGMUT_FIELDS[field])
+        self.event(f"config_modified {field}")
+        self.say_seq(log, f"option {field} was {old!r}, the command goes on with {getattr(cmd.config, field)!r}")
 
     async def queue_rows(self, cmd: Any) -> None:
         """what a scanner does with every request it sends, many times in a row: hand scan results to the database handler's queue"""
@@ -1173,6 +1327,8 @@ class Injector:
         if point == "main" and spec["kind"] == "uds":
             resp = await cmd.ecu.ping()
             self.event(f"ecu_answered {type(resp).__name__}")
+        if spec.get("cfgmut") and spec["cfgmut"]["at"] == point:
+            self.modify_config(cmd, log)
         if spec.get("dbcycle") and spec["dbcycle"]["at"] == point and cmd.db_handler is not None:
             await self.db_cycle(cmd)
             self.say_seq(log, "database handler connected again")
@@ -1203,7 +1359,7 @@ class Injector:
         self.say(log, marker(spec), "marker")
         self.event("fault")
         e = spec["exit"]
-        if spec.get("contend") and e != "sigint":
+        if spec.get("contend") and e != "sigint" and (spec.get("latesig") or {}).get("at") != RUNENTRY_HOLD:
             # hold point: the parent takes the database's write lock now and tells us to go on (a real SIGINT is the go itself)
             (self.out / "ready-db").write_text(str(os.getpid()))
             limit = time.monotonic() + SIGINT_READY_TIMEOUT + 8
@@ -1620,12 +1776,38 @@ def other_writer_lock(db: Path) -> tuple[sqlite3.Connection | None, str | None]:
         return None, repr(e)
 
 
+def wait_scan_results_quiet(db: Path, proc: Any) -> float | None:
+    """seconds until the scan_result table had not grown for RUNENTRY_QUIET s (read-only reader); None: it never settled / could not be read"""
+    t0 = time.monotonic()
+    try:
+        con = sqlite3.connect(f"file:{db}?mode=ro", uri=True, timeout=1)
+    except sqlite3.Error:
+        return None
+    try:
+        last, since = None, t0
+        while time.monotonic() < t0 + RUNENTRY_QUIET_MAX and proc.poll() is None:
+            try:
+                n = con.execute("SELECT count(*) FROM scan_result").fetchall()[0][0]
+            except sqlite3.Error:
+                n = None
+            now = time.monotonic()
+            if n is None or n != last:
+                last, since = n, now
+            elif now - since >= RUNENTRY_QUIET:
+                return round(now - t0, 3)
+            time.sleep(0.03)
+        return None
+    finally:
+        con.close()
+
+
 def late_sigint(proc: Any, paths: dict[str, Path], spec: dict[str, Any]) -> dict[str, Any]:
     """Ctrl-C for a run that is already over: wait until the harness command's run() has ended, then (window "db-sync") until the
     command has called its database handler's disconnect(), look how many rows of the burst the database holds (read-only reader),
     and send SIGINT.
-    Window "run-entry-completion" (one run per command kind; with spec["contend"]): the harness takes the database's write lock at the hold point
-    before the ending and sends the signal a moment after run() has ended, while the lock is still held."""
+    Window "run-entry-completion" (with spec["contend"]): the command is held at the very end of its run(); once the scan_result table has stopped
+    growing the harness takes the database's write lock and lets the command go; the signal goes out a moment after the child has noted the command's
+    call of complete_run_meta(), and the lock is kept until the child has noted that this call was ended by CancelledError."""
     out, late = paths["out"], spec["latesig"]
     info: dict[str, Any] = {"sent": False, "window": late.get("window", "db-sync"), "db_close_entered_after": None, "rows_written_at_signal": None}
     hold = float(spec.get("contend") or 0)
@@ -1636,7 +1818,13 @@ def late_sigint(proc: Any, paths: dict[str, Path], spec: dict[str, Any]) -> dict
             while time.monotonic() < deadline and proc.poll() is None and not (out / "ready-db").exists():
                 time.sleep(0.005)
             if (out / "ready-db").exists():
+                info["quiet_after"] = wait_scan_results_quiet(paths["db"], proc)
                 other, info["lock_error"] = other_writer_lock(paths["db"])
+                if other is not None:
+                    try:
+                        info["scan_rows_at_lock"] = other.execute("SELECT count(*) FROM scan_result").fetchall()[0][0]
+                    except sqlite3.Error as e:
+                        info["rows_error"] = repr(e)
             t_lock = time.monotonic()
             (out / "db-locked").write_text("go")
         deadline = time.monotonic() + LATESIG_RUN_END_TIMEOUT
@@ -1656,6 +1844,14 @@ def late_sigint(proc: Any, paths: dict[str, Path], spec: dict[str, Any]) -> dict
                         info["db_close_entered_after"] = round(time.monotonic() - t_end, 4)
                         break
                     time.sleep(0.002)
+            else:
+                # the command's call that completes the run entry, made after run() was over, has been noted by the child
+                limit = t_end + LATESIG_ENTRY_TIMEOUT
+                while time.monotonic() < limit and proc.poll() is None:
+                    if (out / "run-meta-completion-entered").exists():
+                        info["completion_entered_after"] = round(time.monotonic() - t_end, 4)
+                        break
+                    time.sleep(0.002)
             if late.get("delay"):
                 time.sleep(float(late["delay"]))
             try:
@@ -1668,12 +1864,23 @@ def late_sigint(proc: Any, paths: dict[str, Path], spec: dict[str, Any]) -> dict
             if con is not None:
                 con.close()
         if proc.poll() is None:
+            info["lock_held_at_signal"] = other is not None  # (held until this function commits: nobody else can end that transaction)
             proc.send_signal(signal.SIGINT)
             info["sent"] = True
             info["sent_after_run_end"] = round(time.monotonic() - t_end, 4)
         else:
             info["why_not_sent"] = "the process ended before the signal could be sent"
-        if other is not None:
+        if other is not None and info["window"] == RUNENTRY_WINDOW:
+            # keep the lock until the child has noted that the Ctrl-C ended the command's complete_run_meta() call (then the UPDATE was attempted
+            # and interrupted under the lock), but not for ever
+            t_sig = time.monotonic()
+            info["interrupted_seen_while_locked"] = False
+            while info["sent"] and time.monotonic() < t_sig + RUNENTRY_WAIT_INTERRUPT and proc.poll() is None:
+                if (out / "run-meta-completion-interrupted").exists():
+                    info["interrupted_seen_while_locked"] = True
+                    break
+                time.sleep(0.003)
+        elif other is not None:
             while time.monotonic() < t_lock + hold and proc.poll() is None:
                 time.sleep(0.01)
     finally:
@@ -1713,6 +1920,8 @@ def execute(spec: dict[str, Any], rundir: Path, timeout: float = CHILD_TIMEOUT) 
     for k in ("PYTHONPATH", "GALLIA_CONFIG", "GALLIA_LOGLEVEL"):
         env.pop(k, None)
     env = {k: v for k, v in env.items() if not k.startswith("GALLIA_")}
+    for name in (spec.get("staleenv") or {}).get("vars", []):
+        env[name] = STALE_ENV[name]  # as if this gallia had been started from the post-hook of another gallia run
     obs: dict[str, Any] = {"watchdog": False, "sigint_delivered": False}
     t0 = time.monotonic()
     with open(rundir / "stdout", "wb") as so, open(rundir / "stderr", "wb") as se:
@@ -1894,6 +2103,7 @@ def execute(spec: dict[str, Any], rundir: Path, timeout: float = CHILD_TIMEOUT) 
                     obs["discovery_run"] = [list(r) for r in con.execute("SELECT id, protocol, meta FROM discovery_run").fetchall()]
                 if spec.get("latesig") and obs.get("latesig") is not None:
                     obs["latesig"]["rows_written_finally"] = con.execute("SELECT count(*) FROM scan_result WHERE state LIKE ?", (f"%{BURST_TAG}%",)).fetchall()[0][0]
+                    obs["latesig"]["scan_rows_finally"] = con.execute("SELECT count(*) FROM scan_result").fetchall()[0][0]
             finally:
                 con.close()
         except sqlite3.Error as e:
@@ -2036,9 +2246,14 @@ def judge(spec: dict[str, Any], obs: dict[str, Any], rundir: Path, reach: Any = 
 
     # ---- Ctrl-C while entry_point() closes the database: did the signal really go out in that window?
     late_hit = False
+    runentry_hit = False
     if late:
         li = obs.get("latesig") or {}
         aep = obs.get("after_ep") or {}
+        if li.get("held", 0) > CONTEND_MAX_HELD:
+            # the harness itself held the database's write lock for too long (stalled machine): nothing this run shows can be blamed on the command
+            hit("latesig.run-entry-completion-window.discarded_held_too_long")
+            return []
         if not li.get("sent"):
             hit("latesig.signal_not_sent")  # judged as the plain run it was
         elif li.get("window") == "db-sync":
@@ -2053,7 +2268,12 @@ def judge(spec: dict[str, Any], obs: dict[str, Any], rundir: Path, reach: Any = 
                 hit(f"latesig.kind.{kind}")
                 hit(f"latesig.ending.{endclass.get(ex, ex)}")
         else:
-            hit("latesig.run-entry-completion-window")
+            runentry_hit = bool(li.get("lock_held_at_signal")) and bool(li.get("interrupted_seen_while_locked")) and "run_meta_completion_interrupted" in events
+            hit("latesig.run-entry-completion-window" if runentry_hit else "latesig.run-entry-completion-window.not_exercised")
+            if runentry_hit:
+                hit(f"latesig.run-entry-completion-window.kind.{kind}")
+                idle = li.get("scan_rows_at_lock") is not None and li.get("scan_rows_at_lock") == li.get("scan_rows_finally")
+                hit("latesig.run-entry-completion-window." + ("no-other-write-pending" if idle else "other-writes-pending"))
         if aep.get("db_connection_left_open"):
             # counted, not judged: the harness stops the connection's (non-daemon) worker thread after its observations, so the
             # process can end; whether the process would have ended by itself is not observed in these runs
@@ -2072,6 +2292,15 @@ def judge(spec: dict[str, Any], obs: dict[str, Any], rundir: Path, reach: Any = 
             hit("forkhelper.lock_probed_after_return", 1 if obs["returned"] is not None and obs["lock_after_entry_point"] in ("free", "held") else 0)
 
     hit("fault.point_reached", 1 if "fault" in events else 0)
+    # ---- the command changed an option of its own config object while it ran: did that really happen in this run?
+    cfgmut_field = next((e.split(" ", 1)[1] for e in events if e.startswith("config_modified ")), None)
+    cfgmut_hit = bool(spec.get("cfgmut")) and cfgmut_field is not None
+    if spec.get("cfgmut"):
+        hit("cfgmut.exercised" if cfgmut_hit else "cfgmut.not_exercised")
+        if cfgmut_hit:
+            hit(f"cfgmut.kind.{kind}")
+            hit(f"cfgmut.field.{cfgmut_field}")
+            hit(f"cfgmut.at.{spec['cfgmut']['at']}")
     # ---- the command gave its database handler away and took it back: did that really happen (and complete) in this run?
     dbcycled = False
     if spec.get("dbcycle"):
@@ -2124,20 +2353,39 @@ def judge(spec: dict[str, Any], obs: dict[str, Any], rundir: Path, reach: Any = 
             v.append((f"hook/not-run/{hv}", f"configured {hv}-hook was not executed"))
             continue
         hit("hook.env_checked")
+        # the process may have started with hook variables of another gallia run in its environment (it was launched from that run's post-hook):
+        # a hook of this run that is handed exactly the other run's value got it from there
+        inherited = set((spec.get("staleenv") or {}).get("vars", []))
+
+        def hcond(name: str, otherwise: str) -> str:
+            return STALE_COND if name in inherited and env.get(name) == STALE_ENV[name] else otherwise
+
+        def hnote(name: str) -> str:
+            return (f" - that is the {name} this process was started with in its own environment (the value of another gallia run, as when gallia is launched from that run's post-hook), "
+                    "not what this run has to tell its hook" if hcond(name, "") else "")
+
         if env.get("GALLIA_HOOK") != hv:
-            v.append((f"hook/env/GALLIA_HOOK/{hv}", f"GALLIA_HOOK={env.get('GALLIA_HOOK')!r} in the {hv}-hook"))
+            v.append((f"hook/env/GALLIA_HOOK/{hcond('GALLIA_HOOK', hv)}", f"GALLIA_HOOK={env.get('GALLIA_HOOK')!r} in the {hv}-hook" + hnote("GALLIA_HOOK")))
         if spec["art"] and obs["artifact_dirs"] and env.get("GALLIA_ARTIFACTS_DIR") != obs["artifact_dirs"][0]:
-            v.append((f"hook/env/GALLIA_ARTIFACTS_DIR/{hv}", f"GALLIA_ARTIFACTS_DIR={env.get('GALLIA_ARTIFACTS_DIR')!r}, artifacts are in {obs['artifact_dirs'][0]}"))
+            v.append((f"hook/env/GALLIA_ARTIFACTS_DIR/{hcond('GALLIA_ARTIFACTS_DIR', hv)}", f"GALLIA_ARTIFACTS_DIR={env.get('GALLIA_ARTIFACTS_DIR')!r}, artifacts are in {obs['artifact_dirs'][0]}" + hnote("GALLIA_ARTIFACTS_DIR")))
         if "GALLIA_INVOCATION" not in env:
             v.append((f"hook/env/GALLIA_INVOCATION/{hv}", "GALLIA_INVOCATION not set"))
+        elif hcond("GALLIA_INVOCATION", ""):
+            v.append((f"hook/env/GALLIA_INVOCATION/{STALE_COND}", f"GALLIA_INVOCATION={env.get('GALLIA_INVOCATION')!r} in the {hv}-hook" + hnote("GALLIA_INVOCATION")))
         if hv == "post":
+            if inherited:
+                hit("staleenv.post_hook_env_checked")
+                hit("staleenv.post_hook_env_checked.with_meta_json", 1 if obs["meta_raw"] is not None else 0)
             if env.get("GALLIA_EXIT_CODE") != str(eff):
-                v.append((f"hook/env/GALLIA_EXIT_CODE/{cond}", f"post-hook saw GALLIA_EXIT_CODE={env.get('GALLIA_EXIT_CODE')!r}, process ended with {rc}"))
+                v.append((f"hook/env/GALLIA_EXIT_CODE/{hcond('GALLIA_EXIT_CODE', cond)}", f"post-hook saw GALLIA_EXIT_CODE={env.get('GALLIA_EXIT_CODE')!r}, process ended with {rc}" + hnote("GALLIA_EXIT_CODE")))
             try:
                 hm = json.loads(env.get("GALLIA_META", ""))
-                if hm.get("exit_code") != eff:
+                if hcond("GALLIA_META", ""):
+                    v.append((f"hook/env/GALLIA_META/{STALE_COND}", f"post-hook saw GALLIA_META={env.get('GALLIA_META')!r:.160}" + hnote("GALLIA_META")
+                              + (f"; META.json of this run: {obs['meta_raw']:.160}" if obs["meta_raw"] is not None else "")))
+                elif hm.get("exit_code") != eff:
                     v.append((f"hook/env/GALLIA_META/exit-code-differs/{cond}", f"GALLIA_META.exit_code={hm.get('exit_code')!r}, process ended with {rc}"))
-                if obs["meta_raw"] is not None and hm != json.loads(obs["meta_raw"]):
+                if obs["meta_raw"] is not None and hm != json.loads(obs["meta_raw"]) and not hcond("GALLIA_META", ""):
                     v.append(("hook/env/GALLIA_META/differs-from-META.json", "GALLIA_META is not the content of META.json"))
             except ValueError:
                 v.append(("hook/env/GALLIA_META/not-json", f"GALLIA_META={env.get('GALLIA_META')!r:.200}"))
@@ -2199,8 +2447,17 @@ def judge(spec: dict[str, Any], obs: dict[str, Any], rundir: Path, reach: Any = 
             cls, cfg = recreate_config(meta["command"], meta["config"])
             orig = build_config(spec, rundir)
             hit("config.recreated")
+            if cfgmut_hit:
+                hit("cfgmut.meta_config_checked")
             if cls.__name__ != CLASS_NAMES[kind] or type(cfg) is not type(orig) or cfg.model_dump_json() != orig.model_dump_json():
-                v.append(("meta/config-differs", f"config re-created from META.json differs: {cfg.model_dump_json()[:300]} vs {orig.model_dump_json()[:300]}"))
+                if cfgmut_hit and type(cfg) is type(orig):
+                    a, b = json.loads(cfg.model_dump_json()), json.loads(orig.model_dump_json())
+                    diff = {k: (a.get(k), b.get(k)) for k in sorted(set(a) | set(b)) if a.get(k) != b.get(k)}
+                    v.append((f"meta/config-differs/{CFGMUT_COND}", f"the config in META.json is not the config the run was started with (option: (META.json, started with)): {diff}; the command had "
+                              f"assigned a new value to {cfgmut_field} of its own config object at {spec['cfgmut']['at']}, after having used the value it was started with - re-running from this "
+                              "META.json re-creates a different run" + ("; run_meta.config in the database has the values the run was started with" if spec["db"] else "")))
+                else:
+                    v.append(("meta/config-differs", f"config re-created from META.json differs: {cfg.model_dump_json()[:300]} vs {orig.model_dump_json()[:300]}"))
         except Exception as e:  # noqa: BLE001
             v.append((f"meta/config-not-recreatable/{type(e).__name__}", f"CONFIG_TYPE(**META.config) fails: {e!r:.300}"))
 
@@ -2326,6 +2583,8 @@ def judge(spec: dict[str, Any], obs: dict[str, Any], rundir: Path, reach: Any = 
                 hit("dbcycle.run_meta_checked")
             if late_hit:
                 hit("latesig.run_meta_checked")
+            if runentry_hit:
+                hit("latesig.run-entry-completion-window.run_meta_checked")
             row = rows[0]
             reached = "teardown_super_done" in events and kind in ("scanner", "uds")
             where = "scanner-teardown" if reached else ("scanner-teardown-entered" if "teardown_super_enter" in events and kind != "script" else "other")
@@ -2336,6 +2595,12 @@ def judge(spec: dict[str, Any], obs: dict[str, Any], rundir: Path, reach: Any = 
                 v.append((CONTEND_KEY, f"run_meta.end_time is NULL (exit_code {row['exit_code']!r}) after the process ended with {rc}: another writer held the "
                           f"shared database's write lock for {c['held']} s ({c['overlap']} s of it after the command was told to finish)"
                           + ("" if c.get("child_exited_while_locked_after") is None else f" and the process ended {c['child_exited_while_locked_after']} s into it, without waiting for the lock")))
+            elif row["end_time"] is None and runentry_hit:
+                li = obs["latesig"]
+                v.append(("run_meta/end_time-null/ctrl-c-while-run-entry-is-completed", f"run_meta.end_time is NULL (exit_code {row['exit_code']!r}) after the process ended with {rc}: "
+                          f"run() was over ({ex}), another writer held the shared database's write lock ({li.get('held')} s in all, far below the handler's 10 s busy timeout) when the command "
+                          f"called complete_run_meta(), the Ctrl-C sent {li.get('sent_after_run_end')} s after the end of run() ended that call with CancelledError while the lock was still held, "
+                          "then the lock was released; META.json " + (f"says exit_code {meta['exit_code']!r} with an end time" if meta is not None else "is not configured")))
             elif row["end_time"] is None:
                 v.append((f"run_meta/end_time-null/{where}", f"run_meta.end_time is NULL (exit_code {row['exit_code']!r}) after the process ended with {rc}"
                           + (f"; the command had disconnected its database handler and connected it again {spec['dbcycle']['n']} time(s) at {spec['dbcycle']['at']} "
@@ -2347,8 +2612,11 @@ def judge(spec: dict[str, Any], obs: dict[str, Any], rundir: Path, reach: Any = 
                     v.append(("run_meta/times-invalid", f"start {row['start_time']} > end {row['end_time']}"))
             try:
                 _, cfg = recreate_config(row["script"], json.loads(row["config"]))
+                if cfgmut_hit:
+                    hit("cfgmut.run_meta_config_checked")
                 if cfg.model_dump_json() != build_config(spec, rundir).model_dump_json():
-                    v.append(("run_meta/config-differs", "config re-created from run_meta differs"))
+                    v.append(("run_meta/config-differs" + (f"/{CFGMUT_COND}" if cfgmut_hit else ""), "config re-created from run_meta differs from the config the run was started with"
+                              + (f" (the command had assigned a new value to {cfgmut_field} of its own config object at {spec['cfgmut']['at']})" if cfgmut_hit else "")))
             except Exception as e:  # noqa: BLE001
                 v.append((f"run_meta/config-not-recreatable/{type(e).__name__}", f"{e!r:.300}"))
     elif obs["run_meta"]:
@@ -2685,7 +2953,9 @@ def case_ident(spec: dict[str, Any]) -> tuple[Any, ...]:
             + (("latesig",) + tuple(sorted(spec["latesig"].items())) if spec.get("latesig") else ())
             + (("rerun",) + tuple(sorted((k, str(x)) for k, x in spec["rerun"].items())) if spec.get("rerun") else ())
             + (("slowhook",) + tuple(sorted(spec["slowhook"].items())) if spec.get("slowhook") else ())
-            + (("dbstate", spec["dbstate"]) if spec.get("dbstate", "absent") != "absent" else ()))
+            + (("dbstate", spec["dbstate"]) if spec.get("dbstate", "absent") != "absent" else ())
+            + (("staleenv",) + tuple(spec["staleenv"]["vars"]) if spec.get("staleenv") else ())
+            + (("cfgmut",) + tuple(sorted(spec["cfgmut"].items())) if spec.get("cfgmut") else ()))
 
 
 def process_case(ctx: Any, spec: dict[str, Any], base: Path, lock: Any) -> dict[str, Any] | None:
@@ -2773,7 +3043,7 @@ def process_case(ctx: Any, spec: dict[str, Any], base: Path, lock: Any) -> dict[
                    None if rm is None else (rm["end_time"] is None, rm["exit_code"]), obs["hook_pre_env"] is not None,
                    obs["hook_post_env"] is not None, tuple(sorted(k for k, _ in found))))
         ctx.reach(f"outcome.rc={obs['rc']}")
-        ctx.sample({"case": {f: spec[f] for f in FACTORS + [x for x in ("contend", "dbcycle", "logtext", "forkhelper", "latesig", "rerun", "slowhook", "dbstate") if spec.get(x)]}, "rc": obs["rc"], "meta_exit_code": meta_code, "events": obs["events"],
+        ctx.sample({"case": {f: spec[f] for f in FACTORS + [x for x in ("contend", "dbcycle", "logtext", "forkhelper", "latesig", "rerun", "slowhook", "dbstate", "staleenv", "cfgmut") if spec.get(x)]}, "rc": obs["rc"], "meta_exit_code": meta_code, "events": obs["events"],
                     "run_meta": None if rm is None else {"end_time_null": rm["end_time"] is None, "exit_code": rm["exit_code"]},
                     "keys": sorted(k for k, _ in found)})
         for key, what in found:
